@@ -25,6 +25,11 @@ SOURCES = {
     "failing-after-eeprom": ".eseg\n .db 1\n.cseg\n  undefined_macro\n",
     "messages": ".message \"hello\"\n  nop\n",
     "with-include": ".include \"part.inc\"\n  ret\n",
+    "code-all-zero": "  nop\n  nop\n",
+    "eeprom-all-zero": "  ret\n.eseg\n  .db 0, 0, 0\n",
+    "eeprom-reserved-only": ".eseg\n  .byte 5\n",
+    "both-all-zero": "  nop\n.eseg\n  .dw 0\n",
+    "eeprom-all-ff": "  ret\n.eseg\n  .db 255, 255\n",
 }
 # files that stand next to the NAMED source, and the text the library is asked about instead (the include pasted)
 BESIDE = {"with-include": {"part.inc": "  ldi r17, 2\n"}}
